@@ -106,6 +106,46 @@ def like_regex(pattern, escape, ci):
     return parts[0] if len(parts) == 1 else z3.Concat(*parts)
 
 
+def glob_regex(pattern):
+    """SQLite GLOB: * any run, ? one character, [..] a class (^ negates, a-b ranges, a leading ] is literal); case-sensitive;
+    a class that is never closed matches nothing"""
+    empty = z3.Empty(z3.ReSort(z3.StringSort()))
+    parts = []
+    i = 0
+    while i < len(pattern):
+        ch = pattern[i]
+        if ch == "*":
+            parts.append(z3.Star(ANY))
+        elif ch == "?":
+            parts.append(ANY)
+        elif ch == "[":
+            j = i + 1
+            neg = j < len(pattern) and pattern[j] == "^"
+            if neg:
+                j += 1
+            alts = []
+            first = True
+            while j < len(pattern) and (pattern[j] != "]" or first):
+                if j + 2 < len(pattern) and pattern[j + 1] == "-" and pattern[j + 2] != "]":
+                    alts.append(z3.Range(pattern[j], pattern[j + 2]))
+                    j += 3
+                else:
+                    alts.append(z3.Re(z3.StringVal(pattern[j])))
+                    j += 1
+                first = False
+            if j >= len(pattern):
+                return empty
+            cls = alts[0] if len(alts) == 1 else z3.Union(*alts)
+            parts.append(z3.Intersect(ANY, z3.Complement(cls)) if neg else cls)
+            i = j
+        else:
+            parts.append(z3.Re(z3.StringVal(ch)))
+        i += 1
+    if not parts:
+        return z3.Re(z3.StringVal(""))
+    return parts[0] if len(parts) == 1 else z3.Concat(*parts)
+
+
 def _lit(ch, ci):
     if ci and ch.isascii() and ch.isalpha():
         return z3.Union(z3.Re(z3.StringVal(ch.lower())), z3.Re(z3.StringVal(ch.upper())))
@@ -250,7 +290,12 @@ class Encoder:
         raise Unsupported("boolean node %s" % type(node).__name__)
 
     def binary(self, node, env):
-        op = node.operator.__name__
+        op = getattr(node.operator, "__name__", None) or "custom:%s" % getattr(node.operator, "opstring", node.operator)
+        if op == "custom:GLOB":
+            left, right = self.scalar(node.left, env), self.scalar(node.right, env)
+            if left.kind != "str" or right.kind != "str" or not z3.is_string_value(right.term):
+                raise Unsupported("GLOB with a non-constant pattern")
+            return z3.InRe(left.term, glob_regex(right.term.as_string())), z3.Or(left.null, right.null)
         if op in ("in_op", "not_in_op"):
             left = self.scalar(node.left, env)
             member, anynull = self.membership(left, node.right, env)
